@@ -93,9 +93,9 @@ m = {
  "engines": [
   {"name": "mirfacts", "path": "engines/mirfacts", "serves_properties": sorted(CLAIMED), "kind_free_text": "rustc_private driver (nightly) dumping MIR CFGs with resolved callees, field names, constants and macro backtraces of every workspace member, injected with RUSTC_WORKSPACE_WRAPPER under cargo +nightly check"},
   {"name": "synfacts", "path": "engines/synfacts", "serves_properties": ["C15", "C16"], "kind_free_text": "syn 2 syntax-tree extractor for derive helper attributes (serde) and build.rs keys"},
-  {"name": "rules", "path": "rules", "serves_properties": sorted(CLAIMED), "kind_free_text": "python3 rule modules deciding repository-specific static rules over the fact base; reviewed instances frozen in tables/*.toml"}],
+  {"name": "rules", "path": "rules", "serves_properties": sorted(CLAIMED), "kind_free_text": "python3 rule modules deciding repository-specific static rules over the fact base (CFG dominance, path-sensitive reachability, backward slicing, call graph, MIR-level inlining for normalised views, format-template decoding); reviewed instances frozen in tables/*.toml"}],
  "checks": checks,
- "notes": "Technique family: static analysis only (no cooklang code is executed by any check). Every claimed property decides named structural necessary conditions, not the behaviour; see DESIGN.md.",
+ "notes": "Technique family: static analysis only (no cooklang code is executed by any check). Every claimed property decides named structural necessary conditions, not the behaviour; see DESIGN.md. A rule that fails on the program as written is re-evaluated on normalised views of the same MIR (renames undone, freshly extracted helper functions and local closures inlined or attributed to their caller; rules/inline.py, tables/functions.txt) and is reported only if it fails there too; this never applies to a rule that passes as written. Known findings: known_findings.json. Self-tests: ./check selftest (mutants/), ./check benign (benign/, independent refactors, documented limitations in benign/KNOWN_LIMITATIONS.json), tools/seeds_all.py (seeded/).",
  "not_applicable": na,
 }
 json.dump(m, open(os.path.join(HERE, "MANIFEST.json"), "w"), indent=1)
